@@ -385,6 +385,10 @@ let do_session (text : string) : string =
       | OSearchOut o -> string_of_coq (render_out o)
       | ODisplay g -> "DISPLAY 0x" ^ hex_of_n (make_zobrist_hash g)
       | OEval v -> " " ^ string_of_z v
+      | OPerft (d, lines, total) ->
+        (* per-move lines sorted: rayon prints them in any order *)
+        let ls = List.sort compare (List.map (fun (s, n) -> string_of_coq s ^ ": " ^ string_of_n n) lines) in
+        "PERFT " ^ string_of_n d ^ " " ^ string_of_n total ^ " [" ^ String.concat "," ls ^ "]"
       | OUnmodelled c -> "UNMODELLED " ^ string_of_coq c in
     String.concat " ;; " (List.map render outs) ^ " ;; " ^ (match st with Exit -> "EXIT" | UPanic -> "PANIC" | Continue -> "OUT-OF-FUEL")
   | [] -> "BADREQ"
